@@ -346,14 +346,21 @@ where
     /// `false`.
     #[inline(always)]
     fn eq(&self, other: &Self) -> bool {
-        self.amount() == other.equiv_amount(self.unit())
+        <Self as HasRefUnit>::partial_cmp(self, other)
+            == Some(Ordering::Equal)
     }
 
-    /// Returns the partial order of `self`s amount and `other`s eqivalent
-    /// amount in `self`s unit.
+    /// Returns the partial order of `self`s and `other`s amounts, both
+    /// expressed in the one of their units that has the smaller scale, so
+    /// that the result does not depend on the order of the operands.
     fn partial_cmp(&self, other: &Self) -> Option<Ordering> {
         if self.unit() == other.unit() {
             PartialOrd::partial_cmp(&self.amount(), &other.amount())
+        } else if self.unit().scale() >= other.unit().scale() {
+            PartialOrd::partial_cmp(
+                &self.equiv_amount(other.unit()),
+                &other.amount(),
+            )
         } else {
             PartialOrd::partial_cmp(
                 &self.amount(),
